@@ -111,6 +111,13 @@ theorem stragglerPrecommit_total (b : Bool) : ∃ x, stragglerPrecommit b = .ok 
 theorem stragglerPrecommit_unguarded_counterexample :
     stragglerPrecommitUnguarded false = .error (.panic "types.(*VoteSet).AddVote") := by decide
 
+theorem faultEvidenceKeys_total (r : Int) (p f : Bool) : ∃ x, faultEvidenceKeys r p f = .ok x := by
+  unfold faultEvidenceKeys; split <;> exact ⟨_, rfl⟩
+
+theorem faultEvidenceKeys_unguarded_counterexample :
+    faultEvidenceKeysUnguarded 0 true true = .error (.panic "consensus.(*ConsensusState).checkFaultValEvidence") ∧
+    faultEvidenceKeysUnguarded 1 false true = .error (.panic "consensus.(*ConsensusState).checkFaultValEvidence") := by decide
+
 /-- C16 for the modelled partial operations, all at once -/
 theorem C16_modelled_handlers_total :
     (∀ ps idx ok, PartSet.WF ps → ∃ r, addPart ps idx ok = .ok r) ∧
@@ -127,7 +134,8 @@ theorem guards_in_place : ∀ g ∈ guards, g.opFound = true ∧ g.have_ = g.wan
 open Gen.C16Facts in
 theorem guards_vetted :
     guards.map (·.name) = ["addPartIndexLower", "addPartIndexUpper", "proposalTotalStateMachine", "proposalTotalReactor",
-      "blockComponentsNil", "faultEvidenceEmptyCommitState", "lastCommitNilFirstHeight", "faultEvidenceEmptyCommitValidation"] := by decide
+      "blockComponentsNil", "faultEvidenceEmptyCommitState", "faultEvidenceNilKeysState", "faultEvidenceNilKeysValidation",
+      "lastCommitNilFirstHeight", "faultEvidenceEmptyCommitValidation"] := by decide
 
 /-! ## Non-vacuity -/
 example : ({ total := 2, parts := [none, some 7] } : PartSet).WF := by unfold PartSet.WF; decide
